@@ -13,6 +13,7 @@ import (
 	"servitor/client"
 	"servitor/object"
 	"servitor/pub"
+	"servitor/splicer"
 )
 
 // decode a jv-encoded value (same encoding as dumpJSON) from the token stream
@@ -259,6 +260,45 @@ func init() {
 					}
 				}
 				out = append(out, 0) // no id
+			case 6:
+				// a feed: splicer.NewSplicer over inputs fetched from the simulator, then Harvest through the continuation.
+				// args: ninputs universe indices..., a table (tag, stamp)* read by the model only, amounts
+				ni := r.next()
+				inputs := make([]string, ni)
+				for j := range inputs {
+					inputs[j] = universe[r.next()]
+				}
+				nt := r.next()
+				for j := 0; j < nt; j++ {
+					r.next()
+					r.next()
+				}
+				amounts := r.list()
+				var cont pub.Container = splicer.NewSplicer(inputs)
+				start := uint(0)
+				vals := []int{}
+				for _, a := range amounts {
+					if cont == nil {
+						break
+					}
+					var items []pub.Tangible
+					items, cont, start = cont.Harvest(uint(a), start)
+					vals = append(vals, len(items))
+					for _, it := range items {
+						vals = append(vals, pagingTag(it))
+					}
+					if cont != nil {
+						vals = append(vals, 1, int(start))
+					} else {
+						vals = append(vals, 0, int(start))
+					}
+				}
+				ms := int(time.Since(t0) / time.Millisecond)
+				out = append(out, 0, ms, 3, len(vals))
+				for _, v := range vals {
+					out = append(out, v+10)
+				}
+				out = append(out, 0)
 			case 5:
 				// a remote collection: pub.New(url) must be a collection; Harvest(amount, start) repeatedly with the continuation.
 				// result: a string whose runes are (value + 10): per request n, tags (title number of a post, -1 failure,
